@@ -1679,6 +1679,10 @@ impl Copy2 for mmv_base::kinds::NK {
     const IS_COPY: bool = false;
     fn extend_by_ref<'a, const N: usize, I: Iterator<Item = &'a Self>>(_: &mut Set<Self, N>, _: I) {}
 }
+impl Copy2 for mmv_base::kinds::PK {
+    const IS_COPY: bool = false;
+    fn extend_by_ref<'a, const N: usize, I: Iterator<Item = &'a Self>>(_: &mut Set<Self, N>, _: I) {}
+}
 impl Copy2 for String {
     const IS_COPY: bool = false;
     fn extend_by_ref<'a, const N: usize, I: Iterator<Item = &'a Self>>(_: &mut Set<Self, N>, _: I) {}
@@ -1742,7 +1746,7 @@ where
 }
 
 pub fn run_dyn(case: &Case, cx: &mut Ctx) {
-    use mmv_base::kinds::{NoDrop, Plain, Str, Tagged, Tracked, ZstKey};
+    use mmv_base::kinds::{NoDrop, PathK, Plain, Str, Tagged, Tracked, ZstKey};
     // sets are instantiated for tracked / plain / string / zero-sized / no-drop-glue elements
     let kind = match case.kind % mmv_base::case::NKINDS {
         0 => 0,
@@ -1750,6 +1754,7 @@ pub fn run_dyn(case: &Case, cx: &mut Ctx) {
         4 | 7 => 4,
         6 => 6,
         8 => 8,
+        9 => 9,
         _ => 1,
     };
     let n = mmv_base::capacity_of(&Case { kind, ..case.clone() });
@@ -1759,6 +1764,7 @@ pub fn run_dyn(case: &Case, cx: &mut Ctx) {
         2 => mmv_base::by_cap!(run, Str, n, case, cx, [0, 1, 2, 3, 4, 6]),
         4 => mmv_base::by_cap!(run, ZstKey, n, case, cx, [0, 1]),
         6 => mmv_base::by_cap!(run, NoDrop, n, case, cx, [0, 1, 2, 3, 4, 6]),
-        _ => mmv_base::by_cap!(run, Tagged, n, case, cx, [0, 1, 2, 3, 4, 6, 9]),
+        8 => mmv_base::by_cap!(run, Tagged, n, case, cx, [0, 1, 2, 3, 4, 6, 9]),
+        _ => mmv_base::by_cap!(run, PathK, n, case, cx, [0, 1, 2, 3, 4, 6]),
     }
 }
